@@ -1414,7 +1414,7 @@ impl skrifa::color::ColorPainter for NopPainter {
 
 const API_NAMES: &[&str] = &[
     "metrics", "glyph_metrics", "charmap", "draw_unhinted", "draw_hinted_interpreter", "draw_autohint", "color_paint",
-    "names_attrs", "klippa_subset", "ift_select", "draw_harfbuzz_style", "bitmap_tables",
+    "names_attrs", "klippa_subset", "ift_select", "draw_harfbuzz_style", "bitmap_tables", "ift_apply",
 ];
 
 /// Runs API number `api` on the font bytes; all randomness from (sel).
@@ -1590,6 +1590,44 @@ fn run_api(bytes: &[u8], api: usize, sel: u64) -> Result<(), Trap> {
                 let _ = intersecting_patches(&font, &d);
                 let _ = PatchGroup::select_next_patches(font.clone(), &d).map(|g| g.uris().count());
             }
+            12 => {
+                use incremental_font_transfer::patch_group::{PatchGroup, UriStatus};
+                use incremental_font_transfer::patchmap::SubsetDefinition;
+                use read_fonts::collections::IntSet;
+                let d = if rng.chance(1, 2) {
+                    SubsetDefinition::all()
+                } else {
+                    let mut cps = IntSet::<u32>::empty();
+                    cps.insert_range(0..=0x100);
+                    SubsetDefinition::codepoints(cps)
+                };
+                if let Ok(g) = PatchGroup::select_next_patches(font.clone(), &d) {
+                    let uris: Vec<String> = g.uris().map(|s| s.to_string()).collect();
+                    let mut map = std::collections::HashMap::new();
+                    for u in uris {
+                        let glyph_keyed = bytes.len() > 20_000; // only the NOTO-based IFT font carries the glyph-keyed map
+                        let k = if glyph_keyed { 2 + rng.below(5) } else if rng.chance(1, 2) { rng.below(2) } else { 2 + rng.below(5) };
+                        let mut pbytes = ift_patch_pool(k as usize);
+                        for _ in 0..rng.range(0, 3) {
+                            if pbytes.len() > 24 {
+                                let w = *rng.pick(&[1usize, 2, 4]);
+                                let at = 8 + rng.below((pbytes.len() - 8 - w) as u64) as usize;
+                                let v: Vec<u8> = match w {
+                                    1 => vec![*rng.pick(&[0u8, 1, 0x7F, 0x80, 0xFF])],
+                                    2 => rng.pick(E16).to_be_bytes().to_vec(),
+                                    _ => rng.pick(E32).to_be_bytes().to_vec(),
+                                };
+                                pbytes[at..at + w].copy_from_slice(&v);
+                            }
+                        }
+                        map.insert(u, UriStatus::Pending(pbytes));
+                    }
+                    let r = g.apply_next_patches_with_decoder(&mut map, &LenientDecoder);
+                    if std::env::var("C20_TRACE").is_ok() {
+                        eprintln!("IFTAPPLY {:?}", r.as_ref().map(|v| v.len()));
+                    }
+                }
+            }
             _ => {
                 if let Ok(t) = font.hdmx() {
                     let _ = t.record_for_size(16);
@@ -1613,6 +1651,50 @@ fn run_api(bytes: &[u8], api: usize, sel: u64) -> Result<(), Trap> {
             }
         }
     })
+}
+
+/// brotli if the stream decodes, otherwise the bytes as they are (so that hand-made glyph-keyed payloads work)
+struct LenientDecoder;
+impl shared_brotli_patch_decoder::SharedBrotliDecoder for LenientDecoder {
+    fn decode(&self, encoded: &[u8], dict: Option<&[u8]>, max: usize) -> Result<Vec<u8>, shared_brotli_patch_decoder::decode_error::DecodeError> {
+        match shared_brotli_patch_decoder::BuiltInBrotliDecoder.decode(encoded, dict, max) {
+            Ok(v) => Ok(v),
+            Err(e) => {
+                if encoded.len() <= max {
+                    Ok(encoded.to_vec())
+                } else {
+                    Err(e)
+                }
+            }
+        }
+    }
+}
+
+fn ift_patch_pool(k: usize) -> Vec<u8> {
+    use font_test_data::ift as t;
+    let gk = |payload: font_test_data::bebuffer::BeBuffer, compat: bool| -> Vec<u8> {
+        let mut h = t::glyph_keyed_patch_header();
+        h.write_at("max_uncompressed_length", payload.as_slice().len() as u32);
+        if compat {
+            h.write_at("compatibility_id", 1u32);
+        }
+        let mut v = h.as_slice().to_vec();
+        if compat {
+            // compat id (1,2,3,4) as used by the format 2 test maps
+            v[9..25].copy_from_slice(&[0, 0, 0, 1, 0, 0, 0, 2, 0, 0, 0, 3, 0, 0, 0, 4]);
+        }
+        v.extend_from_slice(payload.as_slice());
+        v
+    };
+    match k {
+        0 => t::table_keyed_patch().as_slice().to_vec(),
+        1 => t::noop_table_keyed_patch().as_slice().to_vec(),
+        2 => gk(t::glyf_u16_glyph_patches(), true),
+        3 => gk(t::glyf_u24_glyph_patches(), true),
+        4 => gk(t::glyf_and_gvar_u16_glyph_patches(), true),
+        5 => gk(t::glyf_u16_glyph_patches_2(), true),
+        _ => gk(t::noop_glyf_glyph_patches(), true),
+    }
 }
 
 fn load_fonts() -> Vec<(&'static str, Vec<u8>)> {
@@ -1671,6 +1753,27 @@ fn load_fonts() -> Vec<(&'static str, Vec<u8>)> {
         tabs.push((*b"IFT ", ift.as_slice().to_vec()));
         let refs: Vec<(&[u8; 4], Vec<u8>)> = tabs.iter().map(|(t, b)| (t, b.clone())).collect();
         v.push((name, sfnt(&refs)));
+    }
+    // table-keyed patch target (tables tab1/tab2 as in the crate's own tests) and a glyph-keyed map on a bigger font
+    {
+        let mut tabs: Vec<([u8; 4], Vec<u8>)> = vec![];
+        for (tag, off, len) in table_dir(d::SIMPLE_GLYF) {
+            tabs.push((tag, d::SIMPLE_GLYF[off..off + len].to_vec()));
+        }
+        tabs.push((*b"tab1", b"abcdef\n".to_vec()));
+        tabs.push((*b"tab2", b"foobar\n".to_vec()));
+        tabs.push((*b"IFT ", d::ift::table_keyed_format2().as_slice().to_vec()));
+        let refs: Vec<(&[u8; 4], Vec<u8>)> = tabs.iter().map(|(t, b)| (t, b.clone())).collect();
+        v.push(("IFT:table_keyed_format2+tab1+tab2", sfnt(&refs)));
+        let mut tabs: Vec<([u8; 4], Vec<u8>)> = vec![];
+        for (tag, off, len) in table_dir(d::NOTO_SERIF_DISPLAY_TRIMMED) {
+            tabs.push((tag, d::NOTO_SERIF_DISPLAY_TRIMMED[off..off + len].to_vec()));
+        }
+        let mut map = d::ift::table_keyed_format2();
+        map.write_at("encoding", 3u8); // glyph keyed
+        tabs.push((*b"IFT ", map.as_slice().to_vec()));
+        let refs: Vec<(&[u8; 4], Vec<u8>)> = tabs.iter().map(|(t, b)| (t, b.clone())).collect();
+        v.push(("IFT:glyph_keyed_map_on_NOTO_SERIF_DISPLAY_TRIMMED", sfnt(&refs)));
     }
     v
 }
@@ -1770,7 +1873,7 @@ fn search(seed: u64, thorough: bool, st: &mut Stats, fonts: &[(&'static str, Vec
                     *counts.entry(format!("mut.font.{}", fonts_ref[m.font].0)).or_insert(0) += 1;
                     for api in 0..API_NAMES.len() {
                         // IFT selection only for IFT fonts; klippa on a quarter of the cases
-                        if api == 9 && !fonts_ref[m.font].0.starts_with("IFT:") {
+                        if (api == 9 || api == 12) && !fonts_ref[m.font].0.starts_with("IFT:") {
                             continue;
                         }
                         if api == 8 && i % 4 != 0 {
